@@ -66,6 +66,12 @@ type minCase struct {
 	StatAt                             int // 0 no Problem.Status, k>0 terminal from the k-th call on
 	StatKind                           int // 0 (NotTerminated, err) 1 (custom, nil) 2 (custom, err)
 
+	// Dom != 0 replaces the objective by a strictly convex function with a
+	// restricted domain, started inside it (Dim 1..4, start drawn from Seed):
+	// 1 log barrier of the unit cube (NaN outside), 2 Σ x-√x (NaN for x < 0),
+	// 3 Σ 1/x+x on x > 0 (+Inf returned outside).
+	Dom int `json:",omitempty"`
+
 	// Prev are earlier Minimize calls made with the same method value before
 	// the run described above (method reuse history). Only the objective and
 	// Settings fields of the entries are used; see history.
@@ -82,7 +88,7 @@ func (c minCase) history() []minCase {
 		q := c
 		q.Prev = nil
 		if c.Method != mGuess && c.Method != mList {
-			q.Obj, q.Dim, q.KappaExp, q.Start, q.Seed = p.Obj, p.Dim, p.KappaExp, p.Start, p.Seed
+			q.Obj, q.Dim, q.KappaExp, q.Start, q.Seed, q.Dom = p.Obj, p.Dim, p.KappaExp, p.Start, p.Seed, p.Dom
 			if q.Obj == 0 && q.Dim < 1 {
 				q.Dim = 1
 			}
@@ -108,6 +114,9 @@ func (c minCase) local() bool     { return c.Method <= mNelderMead }
 func (c minCase) gradBased() bool { return c.Method <= mNewton }
 
 func (c minCase) objective() *objective {
+	if c.Dom != 0 {
+		return newRestricted(c.Dom, min(max(c.Dim, 1), 4), c.Seed)
+	}
 	if c.Obj == 0 {
 		return newQuadratic(c.Dim, c.KappaExp, c.Seed, c.Start)
 	}
@@ -887,8 +896,12 @@ func judgeMin(c minCase, out outcome, reused bool) *vk.Failure {
 		}
 		return deferred
 	}
-	if out.tp.anyBad && badF {
-		vk.Class("min-coherence-skipped/bad-objective")
+	// A local method starts from a finite value and only declares accepted
+	// (decreasing) locations, so its result is never NaN/+Inf. A global method
+	// has nothing to report when no value below +Inf was ever returned: it then
+	// ends with F = +Inf at an unspecified X, the only class left unjudged.
+	if out.tp.anyBad && badF && !c.local() && !(out.tp.minF < math.Inf(1)) {
+		vk.Class("min-coherence-skipped/global-method-never-saw-a-value-below-inf")
 	} else {
 		if !evaluated {
 			if c.Method == mCmaEs && int(fc) < c.popSize(o.dim) {
@@ -917,7 +930,9 @@ func judgeMin(c minCase, out outcome, reused bool) *vk.Failure {
 		}
 	}
 	clean := !out.tp.anyBad
-	if clean && c.local() {
+	if c.local() {
+		// also when the objective returns NaN/Inf elsewhere: a NaN or +Inf value
+		// is not a decrease
 		var f0 float64
 		known := false
 		if c.Init >= 1 {
@@ -925,11 +940,11 @@ func judgeMin(c minCase, out outcome, reused bool) *vk.Failure {
 		} else if out.tp.firstFSet {
 			f0, known = out.tp.firstF, true
 		}
-		if known && !(res.F <= f0) {
+		if known && !math.IsNaN(f0) && !math.IsInf(f0, 1) && !(res.F <= f0) {
 			return vk.Failf("worse-than-initial-point", "f(x0)=%v: %s", f0, desc())
 		}
 	}
-	if clean && !c.local() && !(c.Method == mCmaEs && c.Forget) {
+	if (clean || out.tp.minF < math.Inf(1)) && !c.local() && !(c.Method == mCmaEs && c.Forget) {
 		if !vk.SameBits(res.F, out.tp.minF) && c.Method == mCmaEs && (res.Status == optimize.MethodConverge || (res.Status == optimize.Failure && out.err != nil && !errors.Is(out.err, errRecorder) && !errors.Is(out.err, errStatus))) {
 			// the generation whose update made the method stop is evaluated but its
 			// best sample is never declared (MethodDone carries no location)
@@ -962,15 +977,22 @@ func judgeMin(c minCase, out outcome, reused bool) *vk.Failure {
 				if r.stats.MajorIterations != nMajor && serial {
 					return vk.Failf("recorder-major-count", "record %d: MajorIterations %d, %d-th major iteration: %s", i, r.stats.MajorIterations, nMajor, desc())
 				}
-				if clean && !(c.Method == mCmaEs && c.Forget) && !(res.F <= r.f) {
+				if (clean || c.local()) && !(c.Method == mCmaEs && c.Forget) && !(res.F <= r.f) {
 					return vk.Failf("result-not-best-major-iteration", "major iteration %d had F=%v: %s", nMajor, r.f, desc())
 				}
 			}
 		}
 		// the line search conditions between consecutive major iterations of the
 		// line-search based methods: x_{k+1} = x_k + s d, so s φ'(0) = ∇f_k·Δx
-		if clean && c.gradBased() {
+		if c.gradBased() {
 			dec, curv, wolfe := c.wolfeConstants()
+			finite := func(r *opRec) bool {
+				ok := !math.IsNaN(r.f) && !math.IsInf(r.f, 0)
+				for _, v := range r.g {
+					ok = ok && !math.IsNaN(v) && !math.IsInf(v, 0)
+				}
+				return ok
+			}
 			var prev *opRec
 			k := 0
 			for i := range recs {
@@ -979,7 +1001,7 @@ func judgeMin(c minCase, out outcome, reused bool) *vk.Failure {
 					continue
 				}
 				k++
-				if prev != nil {
+				if prev != nil && finite(prev) && finite(r) {
 					g0d, g1d, scale := 0.0, 0.0, 0.0
 					for j := range r.x {
 						dx := r.x[j] - prev.x[j]
@@ -1104,6 +1126,10 @@ func drawMin(t *rapid.T) minCase {
 		c.Start = rapid.SampledFrom([]int{0, 0, 0, 0, 0, 0, 1, 2}).Draw(t, "start")
 	} else {
 		c.Obj = 1 + rapid.IntRange(0, nCatalogue-1).Draw(t, "obj")
+	}
+	if rapid.IntRange(0, 7).Draw(t, "domcls") == 0 {
+		c.Dom = rapid.IntRange(1, 3).Draw(t, "dom")
+		c.Dim = rapid.IntRange(1, 4).Draw(t, "domdim")
 	}
 	c.Seed = rapid.Uint64().Draw(t, "seed")
 	c.NoGrad = rapid.Bool().Draw(t, "nograd")
